@@ -7,15 +7,17 @@ Offsets == {<<0, 0>>, <<1, -1>>, <<-1, 1>>}
 Rows == {<<1, 1>>, <<1, -2>>, <<0, 2>>}
 Kinds == {<<-1, -1>>, <<-1, INF>>, <<-INF, 2>>, <<-1, 2>>}          \* equality, lower, upper, two-sided
 Points == {<<0, 0>>, <<1, -1>>, <<-2, 1>>}
-Init == /\ \E s \in Scales : \E o \in Offsets : \E fs \in {<<1, 2>>, <<2, 1>>} : \E bnd \in {"finite", "mixinf"} :
+Init == /\ \E s \in Scales : \E o \in Offsets : \E fs \in {<<1, 2>>, <<2, 1>>} : \E bnd \in {"finite", "mixinf", "none"} :        \* "none": no variable bounds and no non-linear constraints at all
            \E a \in Rows : \E k \in Kinds : \E pt \in {"abs", "rel"} : \E x \in Points :
            \E which \in {"all", "vars", "obj", "con", "offs", "scal"} : \E fail \in BOOLEAN :
              \* (offs / scal: a variable transform with offsets / scales only)
              /\ (pt = "rel" => bnd = "finite")
+             /\ (bnd = "none" => which \in {"all", "vars", "offs"} /\ ~fail)
              /\ (which # "all" => o = <<1, -1>> /\ fs = <<1, 2>> /\ a = <<1, -2>>)       \* keep the single-transform families small
              /\ (fail => which \in {"all", "vars"} /\ a = <<1, 1>> /\ x = <<1, -1>>)
              /\ sc = [s |-> s, o |-> o, fs |-> fs, bnd |-> bnd, a |-> a, l |-> k[1], u |-> k[2], ptype |-> pt, x |-> x, which |-> which, fail |-> fail,
-                      lb |-> IF bnd = "finite" THEN <<-2, -2>> ELSE <<-INF, -2>>, ub |-> IF bnd = "finite" THEN <<2, 2>> ELSE <<2, INF>>]
+                      lb |-> IF bnd = "finite" THEN <<-2, -2>> ELSE IF bnd = "none" THEN <<-INF, -INF>> ELSE <<-INF, -2>>,
+                      ub |-> IF bnd = "finite" THEN <<2, 2>> ELSE IF bnd = "none" THEN <<INF, INF>> ELSE <<2, INF>>]
         /\ phase = "init"
 Next == phase = "init" /\ phase' = "done" /\ UNCHANGED sc
 X == <<<<sc.x[1], 1>>, <<sc.x[2], 1>>>>
